@@ -1,5 +1,6 @@
 pub mod grammar;
 pub mod pos;
+pub mod scalar_text;
 pub mod damage;
 pub mod render;
 pub mod block_scalar;
